@@ -67,7 +67,10 @@ type symDeps struct {
 
 func (d *symDeps) RelationTupleManager() relationtuple.Manager { return d.store }
 func (d *symDeps) Mapper() *relationtuple.Mapper                 { return nil }
-func (d *symDeps) ReadOnlyMapper() *relationtuple.Mapper         { return nil }
+func (d *symDeps) ReadOnlyMapper() *relationtuple.Mapper {
+	// names -> ids as the SQL mapping manager computes them (UUIDv5 of the name), without a table
+	return &relationtuple.Mapper{D: &symMapperDeps{mm: v5Mapping{}, cfg: d.cfg}, ReadOnly: true}
+}
 func (d *symDeps) Persister() persistence.Persister              { return nil }
 func (d *symDeps) Traverser() relationtuple.Traverser            { return d.store }
 func (d *symDeps) Config(context.Context) *config.Config         { return d.cfg }
